@@ -15,6 +15,10 @@ CLAIMED = {
             "expand's increment depends on the stored position total because close removes f(total); claim and the rewards query agree as "
             "multisets of operations up to a frozen claim-only list; second claim in an epoch rejected before any effect; reward <= emission and "
             "claimed <= funded gate every transfer; weight domain and max(computed, amount). Share-sum under snapshot placement: not decided.", "§4 C13"),
+    "C14": ("sibling agreement: argument-provenance classes, field mappings, direction tables with constant indices, operand-shape comparison",
+            "Simulation and execution feed compute_swap from the same classes (pool reads minus pending fees, pool_fees, type/invariant, decimals) "
+            "except swap's documented offer subtraction; response fields 1:1; pair and 3-pool direction/decimals tables are permutations and agree; "
+            "vault share query and withdraw use the same ratio * (balance - pending); router simulation chains return amounts.", "§4 C14"),
     "C16": ("MIR call-chain guard dominance (edge-cut reachability) over dispatch tables",
             "Every ExecuteMsg variant of the 14 dispatching contracts x every storage write / outgoing message reachable from "
             "its arm x the sender==authority comparison that must dominate it on the call chain; unprivileged variants must not "
@@ -35,6 +39,11 @@ CLAIMED.update({
             "Every operation in the constant-product arm of compute_swap that can abort matches a discharge pattern (operation + operand "
             "provenance + arithmetic reason); three fees are computed from one gross amount on the three pool_fees fields and all subtracted; "
             "response fields carry the like-named values. Exact price, there-and-back and range claims are numerical: not decided.", "§4 C01-C05"),
+    "C04": ("sample-point evaluation of the ramp guard (symbolic evaluation of guard expressions + CFG walk) + field-source tracing + direction tables",
+            "The amp ramp is accepted exactly for 1 <= a <= 10^6, 1/10 <= a/current <= 10 and >= 10000 blocks (one sample per region, "
+            "guard expressions evaluated symbolically); on acceptance initial_amp := current amp, initial block := height, targets := request; "
+            "3-pool direction tables are permutations and agree across swap/simulate/reverse. Solvency, D monotonicity, there-and-back, "
+            "interpolation linearity are numerical: not decided.", "§4 C01-C05"),
     "C06": ("guard dominance + push-order dominance + ordering-domain walks + fee-set agreement between sibling computations",
             "Callback self-guard; flash_loan message order loan->borrower->AfterTrade(last) with old_balance from this call's query; success "
             "reachable iff required <= balance with required = old + three CONFIG fees of the loan; counter inc/dec pairing; no mint "
